@@ -64,10 +64,10 @@ na=[{"property_id":i,"reason":"check not built yet (work in progress; see DESIGN
 m={"version":1,"setup_cmd":"./verif.sh setup",
  "hooks":{"guard":"verif","enable":"go build -tags verif (done by ./verif.sh; harness module replaces go.uber.org/dig with /repo)",
   "baseline_off_cmd":"cd /repo && GOFLAGS=-mod=mod GOPROXY=off GOSUMDB=off GOTOOLCHAIN=local go test -vet=off -count=1 ./...",
-  "source_commits":["3162adb","d439382"],"add_only":True},
+  "source_commits":["3162adb","d439382","9ab649e"],"add_only":True},
  "engines":[{"name":"E-dyn","path":"/verif/harness","serves_properties":[c["property_id"] for c in checks],"kind_free_text":"runtime monitor: reflect-materialised user functions with provenance tokens, online spec-state trace checker, differential runner, child process per batch"},
   {"name":"E-pool","path":"/verif/harness/pool","serves_properties":["C18","C19","C20"],"kind_free_text":"384 generated declared functions (distinct code pointers) forwarding to the monitor body: constructor ids, locations, callback names"},
-  {"name":"E-graph","path":"/verif/harness/c05.go","serves_properties":["C05"],"kind_free_text":"hook VerifIsAcyclic: the real cycle search on arbitrary digraphs"}],
+  {"name":"E-graph","path":"/verif/harness/c05.go","serves_properties":["C05"],"kind_free_text":"hooks VerifIsAcyclic / VerifIsAcyclicSteps: the real cycle search on arbitrary digraphs (all up to 5 nodes, sampled up to 260 nodes) under a logical budget of successor look-ups"}],
  "checks":checks,"not_applicable":na,
  "notes":"Runtime monitoring only. Exit 0 held / 1 VIOLATION / 3 INCONCLUSIVE. KNOWN_FINDINGS.txt lists 27 genuine defects observed by the monitors: 23 repaired by fix: commits in /repo, 4 recorded as known findings (F16, F25 for C13; F22, F23 for C16). DESIGN.md sections 14 to 16 are authoritative for what exists."}
 json.dump(m,open('/verif/MANIFEST.json','w'),indent=1)
